@@ -288,6 +288,24 @@ func (f *folder) fold(x *sx) *sx {
 			}
 			return numSx(r)
 		}
+		if len(args) == 2 {
+			if nums[1] != nil && nums[1].Sign() == 0 {
+				return args[0]
+			}
+			if nums[0] != nil && nums[0].Sign() == 0 {
+				return args[1]
+			}
+			// (+ (+ a n) m) -> (+ a (n+m))
+			if nums[1] != nil && args[0].headAtom() == "+" && len(args[0].list) == 3 {
+				if n0, ok := args[0].list[2].num(); ok {
+					sum := new(big.Int).Add(n0, nums[1])
+					if sum.Sign() == 0 {
+						return args[0].list[1]
+					}
+					return &sx{list: []*sx{head, args[0].list[1], numSx(sum)}}
+				}
+			}
+		}
 	case "-":
 		if allNum {
 			if len(nums) == 1 {
@@ -298,6 +316,13 @@ func (f *folder) fold(x *sx) *sx {
 				r.Sub(r, n)
 			}
 			return numSx(r)
+		}
+		if len(args) == 2 && nums[1] != nil {
+			// (- a n) -> (+ a (- n)): one normal form for offsets
+			if nums[1].Sign() == 0 {
+				return args[0]
+			}
+			return f.fold(&sx{list: []*sx{{atom: "+"}, args[0], numSx(new(big.Int).Neg(nums[1]))}})
 		}
 	case "*":
 		if allNum {
@@ -845,6 +870,12 @@ func (f *folder) foldLine(line string, px *sx) string {
 				return ""
 			}
 			f.recordFacts(b)
+			// an unconditional definition of a declared constant by a constructor term
+			if b.headAtom() == "=" && len(b.list) == 3 && b.list[1].list == nil && isCtorTerm(b.list[2]) {
+				if _, have := f.env[b.list[1].atom]; !have && len(b.list[2].String()) < 2000 {
+					f.env[b.list[1].atom] = b.list[2]
+				}
+			}
 			x.list[1] = b
 			return x.String()
 		}
